@@ -64,6 +64,12 @@ async fn run_case(case: Vec<String>, detail: bool) -> String {
         .collect();
     let horizon: u64 = case[5].parse().unwrap();
     let extra_headers = case.get(6).map(|s| String::from_utf8(unhex(s)).unwrap()).unwrap_or_default();
+    // instants at which the transaction table size is sampled (besides right after every arrival)
+    let mut probes: Vec<u64> = case
+        .get(7)
+        .map(|s| s.split(',').filter(|x| !x.is_empty()).map(|x| x.parse().unwrap()).collect())
+        .unwrap_or_default();
+    probes.sort();
 
     let clock = Clock::new();
     let wire: WireLog = Default::default();
@@ -161,7 +167,14 @@ async fn run_case(case: Vec<String>, detail: bool) -> String {
     let cid = header_lines(&first, "call-id").join("\r\n");
     let cseq = header_lines(&first, "cseq").join("\r\n");
 
+    let mut pi = 0;
     for (t, code, tag) in &arrivals {
+        while pi < probes.len() && probes[pi] < *t {
+            advance_to(&clock, probes[pi]).await;
+            settle_now().await;
+            evlog.lock().push((next_seq(), probes[pi], format!("N:{}", endpoint.verif_counts().0)));
+            pi += 1;
+        }
         advance_to(&clock, *t).await;
         let to_line = if *code > 100 && tag != "-" { format!("{};tag={}", to, tag) } else { to.clone() };
         let resp = format!(
@@ -170,6 +183,13 @@ async fn run_case(case: Vec<String>, detail: bool) -> String {
         );
         inject(&endpoint, resp.as_bytes(), dest, &tp);
         settle_now().await;
+        evlog.lock().push((next_seq(), *t, format!("N:{}", endpoint.verif_counts().0)));
+    }
+    while pi < probes.len() && probes[pi] < horizon {
+        advance_to(&clock, probes[pi]).await;
+        settle_now().await;
+        evlog.lock().push((next_seq(), probes[pi], format!("N:{}", endpoint.verif_counts().0)));
+        pi += 1;
     }
     advance_to(&clock, horizon).await;
     settle_now().await;
